@@ -1,4 +1,5 @@
 import YatimlModel.Props.C04
+import YatimlModel.Lemmas.CallsTyped
 /-!
 # C01 — a loaded value always conforms to the declared type
 
@@ -162,5 +163,48 @@ theorem C01_empty_document (env : Env) (tbl : List Entry) (fuel : Nat) (T : Ty)
   rcases hT with rfl | rfl | rfl | rfl | rfl | rfl <;>
     simp [processNode, recognize, recognizeReq, recScalar, emptyDocument, recFail,
       tNull, tStr, tInt, tFloat, tBool, tTimestamp]
+
+/-- what the arguments of one user-constructor call are guaranteed to be -/
+def CallTyped (env : Env) (c : Call) : Prop :=
+  (∃ (d : ClassDef) (mapping : List (PyVal × PyVal)), c = ⟨d.name, kwargsOf d mapping⟩ ∧
+      (∀ p ∈ d.params, (p.required = true → (dictGet mapping p.name).isSome = true) ∧
+        (∀ v, dictGet mapping p.name = some v → typeMatches env v p.ty = true)) ∧
+      (∀ e ∈ mapping, ∃ k, e.1 = .scalar (.str k) ∧
+        (d.argNames.contains k = true ∨ k = "self" ∨ d.takesExtra = true))) ∨
+  (∃ (d : ClassDef) (v : String), c = ⟨d.name, [(.scalar (.str ""), .scalar (.str v))]⟩)
+
+/-- the user-constructor calls a load made, whether it succeeded or not -/
+def loadCalls (r : LoadRes) : List Call :=
+  match r with
+  | .ok o => o.calls
+  | .error f => f.calls
+
+/-- **All the way down.**  Every call of a user constructor that a load makes — at any depth, whether
+the load as a whole succeeds or fails afterwards — receives, for every declared parameter, either
+nothing (Python's default applies) or a value of the declared type (`typeMatches`: containers
+element-wise, unions member-wise, classes by `isinstance`), every required parameter is present, and
+keys that are not parameters only reach a class that takes `_yatiml_extra`.  String-like classes are
+called with the scalar's text.  For every node, class model, type and fuel. -/
+theorem C01_every_constructor_call_typed (env : Env) (tbl : List Entry) (fuel : Nat) (n : Node) (T : Ty) :
+    ∀ c ∈ loadCalls (loadNode env tbl fuel n T), CallTyped env c := by
+  have key : ∀ (cs : List Call), CallsOk env tbl cs → ∀ c ∈ cs, CallTyped env c := by
+    intro cs h c hc
+    rcases h c hc with ⟨d, n', ps, mapping, rfl, hchk⟩ | ⟨d, v, rfl, _⟩
+    · exact Or.inl ⟨d, mapping, rfl, checkAttributes_none env d n' ps mapping hchk⟩
+    · exact Or.inr ⟨d, v, rfl⟩
+  unfold loadNode
+  cases hp : processNode env tbl fuel n T with
+  | error e => intro c hc; simp [loadCalls] at hc
+  | ok p =>
+    have := construct_callsOk env tbl fuel p.node
+    dsimp only
+    cases hc : construct env tbl fuel p.node with
+    | error err =>
+      obtain ⟨e, calls⟩ := err
+      rw [hc] at this
+      simpa [loadCalls] using key calls this
+    | ok co =>
+      rw [hc] at this
+      simpa [loadCalls] using key co.calls this
 
 end YatimlModel.C01
